@@ -173,6 +173,7 @@ def run_io_cases(cases, asan=False, per_case_timeout=60, jobs=16, tag="c", keep=
 def run_model_par(drv, queries, jobs=16):
     """queries: list of query strings (each may span lines); a leading 'M ...' entry is repeated for every worker"""
     from concurrent.futures import ThreadPoolExecutor
+    build_model()          # once, before the workers start
     head = [x for x in queries if x.startswith("M ")]
     body = [x for x in queries if not x.startswith("M ")]
     if not body:
